@@ -33,8 +33,10 @@ def real_headers_cached(variants):
     if missing:
         got = vbuild.real_config_headers({n: a for n, (a, _) in missing.items()})
         for n, text in got.items():
-            with open(missing[n][1], "w") as f:
+            tmp = missing[n][1] + ".tmp%d" % os.getpid()
+            with open(tmp, "w") as f:
                 f.write(text)
+            os.replace(tmp, missing[n][1])
             out[n] = text
     return out
 
